@@ -75,6 +75,7 @@ class Report:
         self.errors = []
         self.obligations = []   # dicts
         self.standins = []
+        self.declared_bounded = []
         self.functions = set()
         self.trusted = set()
         self.files = set()
@@ -109,7 +110,10 @@ def run_property(prop, tier, seed, impl="py", only=None):
         return 3, rep
     known = [k for k in load_known() if k.get("status", "open") == "open"]
     jobs = []
+    special = [h for h in mine if h.kind in ("table", "bounded")]
     for h in mine:
+        if h.kind != "proof":
+            continue
         for case in prove.case_product(h):
             tmo = h.timeout[tier] if isinstance(h.timeout, dict) and tier in h.timeout else T["timeout_ms"]
             jobs.append((h.id, case, tmo, impl, (), T["max_paths"]))
@@ -155,6 +159,12 @@ def run_property(prop, tier, seed, impl="py", only=None):
     rep.tainted = tainted_h
 
     native_jobs = []   # (kind, hid, case, payload)
+    empty_cases = {}
+    live_harness = set()
+    for h in special:
+        rep.functions.update(h.functions)
+        for case in prove.case_product(h):
+            native_jobs.append((h.kind, h, case, None, None))
     for (hid, case, tmo, _, _, _), res in zip(jobs, results):
         h = hs[hid]
         cname = prove.case_name(case)
@@ -168,8 +178,12 @@ def run_property(prop, tier, seed, impl="py", only=None):
             rep.trusted.add("contract of %s used at %s call sites (proved by its own body harness)" % (qn, "its"))
         nchecks = sum(d["proved"] + d["refuted"] + d["unknown"] for d in res["checks"].values())
         if nchecks == 0 and not res["n_unsupported"] and not res.get("escaped"):
-            rep.errors.append("%s[%s]: zero obligations generated (vacuous harness)" % (hid, cname))
+            if res["paths"] == 0:
+                empty_cases.setdefault(hid, []).append(cname)   # case excluded by the harness's own assume()
+            else:
+                rep.errors.append("%s[%s]: zero obligations generated (vacuous harness)" % (hid, cname))
             continue
+        live_harness.add(hid)
         ref = first_refutation(res)
         undecided = res["n_unsupported"] > 0 or any(d["unknown"] for d in res["checks"].values())
         for lab, d in res["checks"].items():
@@ -196,10 +210,22 @@ def run_property(prop, tier, seed, impl="py", only=None):
             if res.get("witness") is not None:
                 native_jobs.append(("witness", h, case, res, None))
 
+    for hid, cs in empty_cases.items():
+        if hid not in live_harness:
+            rep.errors.append("%s: every case is excluded by its own assumptions (vacuous harness)" % hid)
+
     def do_native(job):
         kind, h, case, res, ref = job
         cname = prove.case_name(case)
         case_json = json.dumps({k: list(v) for k, v in case.items()})
+        if kind == "table":
+            t0 = time.time()
+            r = native_call(["sample", h.id, "1", str(seed), case_json])
+            r["seconds"] = time.time() - t0
+            return job, None, r
+        if kind == "bounded":
+            r = native_call(["sample", h.id, str(T["standin"]), str(seed), case_json])
+            return job, None, r
         if kind == "replay":
             lab, model, _ = ref
             path = write_replay(prop, h.id, cname, lab, model,
@@ -229,8 +255,30 @@ def run_property(prop, tier, seed, impl="py", only=None):
         if r.get("status") == "error":
             rep.errors.append("%s: native run failed: %s" % (tag, r.get("detail")))
             continue
+        if kind == "table":
+            st = "proved" if (r.get("pass") == 1 and not r.get("fails")) else "refuted"
+            rep.obligations.append({"harness": h.id, "case": cname, "label": "finite table fact (exhaustive native evaluation)",
+                                    "status": st, "paths": 1, "seconds": round(r.get("seconds", 0), 3),
+                                    "backends": {"table": 1}})
+            if st == "refuted":
+                f = (r.get("fails") or [{"inputs": {}, "detail": "no case ran"}])[0]
+                p2 = write_replay(prop, h.id, cname, "table", f["inputs"], {"detail": f["detail"]}, False)
+                handle_failure(rep, prop, h, cname, "table fact: " + f["detail"], f["inputs"], p2, known, reproduced=True)
+            continue
+        if kind == "bounded":
+            rep.declared_bounded.append({"harness": h.id, "case": cname, "cases": r["pass"], "skipped": r["skip"],
+                                         "exhaustive": bool(r.get("exhaustive")), "bound": T["standin"],
+                                         "functions": h.functions, "note": h.note})
+            if r["fails"]:
+                f = r["fails"][0]
+                p2 = write_replay(prop, h.id, cname, "bounded", f["inputs"], {"detail": f["detail"]}, h.idealised)
+                handle_failure(rep, prop, h, cname, "bounded check: " + f["detail"], f["inputs"], p2, known,
+                               reproduced=True)
+            continue
         if kind == "witness":
-            if r["status"] == "fail":
+            if r["status"] == "fail" and h.id in rep.tainted:
+                pass
+            elif r["status"] == "fail":
                 rep.errors.append("%s: vacuity witness fails natively although every obligation was proved "
                                   "(engine/model mismatch): %s" % (tag, r["detail"]))
             continue
@@ -364,6 +412,7 @@ def finish(rep, t_start):
             "not_decided": [{"harness": o["harness"], "case": o["case"], "label": o["label"],
                              "detail": o.get("detail")} for o in undecided][:40],
             "bounded_standins": rep.standins,
+            "declared_bounded_checks": rep.declared_bounded,
             "known_findings_hit": sorted({k["id"] for k in rep.known}),
             "cpython_crosscheck": rep.crosscheck,
             "samples": ([{"obligation": "%s/%s[%s] %s" % (prop, o["harness"], o["case"], o["label"]),
@@ -392,8 +441,12 @@ def finish(rep, t_start):
     for o in undecided[:10]:
         rep.out("  undecided: %s[%s] %s %s" % (o["harness"], o["case"], o["label"], o.get("detail", "")))
     if rep.errors:
+        seen = {}
         for e in rep.errors:
-            rep.out("CHECKER-ERROR: " + e)
+            key = e.strip().splitlines()[-1]
+            seen.setdefault(key, []).append(e)
+        for key, es in list(seen.items())[:12]:
+            rep.out("CHECKER-ERROR (x%d): %s" % (len(es), es[0][:3000]))
         return 3, rep
     if rep.violations:
         return 1, rep
